@@ -10,8 +10,13 @@
                  is adopted, and every rank / quantile / cdf / pmf answer of the crate is
                  compared with the exact Q model within 1e-9 (bits -> exact Q);
    * [prop_ok] : oracle 0 -- property C10 evaluated on the crate's observations alone;
-   * [c15_ok]  : oracle 2 -- property C15 (structural part + the measured 2k+30 bound) on
-                 the crate's centroid dumps.
+   * [c15_ok]  : oracle 2 -- property C15 (structural part + the 2k+30 threshold test) on
+                 the crate's centroid dumps;
+   * [acc_ok]  : oracle 7 -- the accuracy half of C15 as a labelled threshold test (cluster sizes
+                 against the k2 scale function, rank against the exact empirical rank);
+   * oracles 3..6: codec_ok, twin_ok, foreign_ok, no_panic (C11..C14, C17, C18 parts).
+   Every oracle answers false when the numbers of operations and observations differ or a field
+   it needs is missing; an unset slot is answered EMPTY by the harness and expected as such.
 
    op codes (first argument is always the slot):
      0 new k | 1 update bits | 2 merge src (obs: dump of dst, [] when src is empty)
@@ -25,33 +30,14 @@
      21 deserialize_f32 bytes.. (is_f32 = true)
    dump = [k; reverse_merge; n; min; max; mean_0; weight_0; ...] (bits; min = max = -2 when n = 0) *)
 From Coq Require Import QArith Qabs.
-From DS Require Import Base.Prelude Base.Oracles Base.TDigestBits Model.TDigest Model.TDigestCodec Spec.TDigestSpec Spec.TDigestLayout.
+From DS Require Import Base.Prelude Base.Oracles Base.TDigestBits Model.TDigest Model.TDigestCodec Model.TDigestBridge Spec.TDigestSpec Spec.TDigestLayout.
 From DS Require Gen.GenTDigest Gen.GenCodec.
 Open Scope Z_scope.
 
 Definition NONE : Z := -2.
 Definition ONE_BITS : Z := 0x3ff0000000000000.
 
-(* ---------- binary64 bit pattern -> exact rational ---------- *)
-Fixpoint strip2 (fuel : nat) (m e : Z) : Z * Z :=
-  match fuel with
-  | O => (m, e)
-  | S f => if (e <? 0) && Z.even m && negb (m =? 0) then strip2 f (m / 2) (e + 1) else (m, e)
-  end.
-
-Definition is_nan_b (b : Z) : bool :=
-  (Z.land (Z.shiftr b 52) 0x7ff =? 0x7ff) && negb (Z.land b 0xfffffffffffff =? 0).
-Definition is_inf_b (b : Z) : bool :=
-  (Z.land (Z.shiftr b 52) 0x7ff =? 0x7ff) && (Z.land b 0xfffffffffffff =? 0).
-
-Definition Q_of_bits (b : Z) : option Q :=
-  let s := Z.testbit b 63 in
-  let e := Z.land (Z.shiftr b 52) 0x7ff in
-  let m := Z.land b 0xfffffffffffff in
-  if (b <? 0) || (e =? 0x7ff) then None else
-  let '(mant, ex) := if e =? 0 then strip2 60 m (-1074) else strip2 60 (m + 0x10000000000000) (e - 1075) in
-  let mag := if 0 <=? ex then inject_Z (mant * 2 ^ ex) else Qmake mant (Z.to_pos (2 ^ (- ex))) in
-  Some (if s then Qopp mag else mag).
+(* binary64 bit pattern -> exact rational: Q_of_bits, is_nan_b, is_inf_b (Model/TDigestBridge.v) *)
 
 (* total order on bit patterns of non-NaN doubles (for ulp distances) *)
 Definition ord_bits (b : Z) : Z := if b <? 0x8000000000000000 then b else - (b - 0x8000000000000000).
@@ -61,13 +47,6 @@ Definition qeq (a b : Q) : bool := Qeq_bool a b.
 Definition EPS : Q := (1 # 1000000000)%Q.
 Definition close_to (scale : Q) (a b : Q) : bool :=
   Qle_bool (Qabs (a - b)) (EPS * Qmaxq 1 scale).
-
-Fixpoint all_some {A} (l : list (option A)) : option (list A) :=
-  match l with
-  | [] => Some []
-  | Some x :: r => match all_some r with Some t => Some (x :: t) | None => None end
-  | None :: _ => None
-  end.
 
 (* ---------- dumps ---------- *)
 Record dump := mkDump { d_k : Z; d_rev : bool; d_min : option Q; d_max : option Q; d_cs : list centroid }.
@@ -114,26 +93,7 @@ Definition dump_matches (d : td) (D : dump) : bool :=
 Definition u_le (n : nat) (bs : list Z) (off : nat) : Z :=
   Nz (le_val (map zN (firstn n (skipn off bs)))).
 
-Definition pair_of_bits (c : N * N) : option centroid :=
-  match Q_of_bits (Nz (fst c)) with
-  | Some q => if (0 <? snd c)%N then Some (q, Z.to_pos (Nz (snd c))) else None
-  | None => None
-  end.
-
-(* None = a state the rational model cannot hold (infinite min / max) *)
-Definition td_of_tdb (s : tdb) : option td :=
-  match all_some (map pair_of_bits (b_cs s)), all_some (map (fun b => Q_of_bits (Nz b)) (b_buf s)) with
-  | Some cs, Some vals =>
-      match b_cs s, b_buf s with
-      | [], [] => Some (mkTd (Nz (b_k s)) (b_rev s) None None [] 0 [])
-      | _, _ => match Q_of_bits (Nz (b_min s)), Q_of_bits (Nz (b_max s)) with
-                | Some mn, Some mx => Some (mkTd (Nz (b_k s)) (b_rev s) (Some mn) (Some mx) cs (Nz (b_cw s)) vals)
-                | _, _ => None
-                end
-      end
-  | _, _ => None
-  end.
-
+(* pair_of_bits, td_of_tdb: Model/TDigestBridge.v (None = a state the rational model cannot hold) *)
 Definition td_deserialize (is_f32 : bool) (bs : list Z) : option (outcome td) :=
   match tdb_dec is_f32 (map zN bs) with
   | Ok s => match td_of_tdb s with Some d => Some (Ok d) | None => None end
@@ -149,8 +109,10 @@ Definition sslots := list (option spec).
 Definition sget (st : sslots) (i : Z) : option spec := nth (Z.to_nat i) st None.
 Definition sput (st : sslots) (i : Z) (s : spec) : sslots := set_nth (Z.to_nat i) (Some s) st.
 
+(* a < b as doubles (f64::min / f64::max keep the current extreme on a tie; NaN never reaches here).
+   ord_bits is monotone in the value, so no conversion to Q is needed (1e308 is a 1024-bit integer). *)
 Definition bits_lt (a b : Z) : bool :=
-  match Q_of_bits a, Q_of_bits b with Some x, Some y => Qltb x y | _, _ => false end.
+  if is_nan_b a || is_nan_b b then false else ord_bits a <? ord_bits b.
 Definition bmin (a : option Z) (x : Z) : option Z :=
   match a with None => Some x | Some m => Some (if bits_lt x m then x else m) end.
 Definition bmax (a : option Z) (x : Z) : option Z :=
@@ -294,17 +256,14 @@ Definition tie_step (st : mslots) (o : zop) (ob : list Z) : option (mslots * boo
   | 1 => match mget st slot with
          | None => None
          | Some m =>
+             (* Model/TDigest.v td_update_with through td_update_bits: NaN / +-inf are ignored by the MODEL *)
              let b := nth 1 a 0 in
-             match Q_of_bits b with
-             | None => Some (st, list_eqb Z.eqb ob [])
-             | Some x =>
-                 if td_needs_compress_on_update (m_td m) then
-                   match m_pend m with
-                   | Some out => Some (mput st slot (td_push (td_compress_with (m_td m) out) x) None, list_eqb Z.eqb ob [])
-                   | None => None
-                   end
-                 else Some (mput st slot (td_push (m_td m) x) None, list_eqb Z.eqb ob [])
-             end
+             let ignored := match Q_of_bits b with None => true | Some _ => false end in
+             if negb ignored && td_needs_compress_on_update (m_td m) && (match m_pend m with None => true | Some _ => false end)
+             then None
+             else
+               let out := match m_pend m with Some o => o | None => [] end in
+               Some (mput st slot (td_update_bits (m_td m) b out) (if ignored then m_pend m else None), list_eqb Z.eqb ob [])
          end
   | 2 => match mget st slot, mget st (nth 1 a 0) with
          | Some m, Some mo =>
@@ -455,7 +414,8 @@ Fixpoint tie_from (st : mslots) (ops : list zop) (obs : list (list Z)) : bool :=
       | Some (st', ok) => ok && (if list_eqb Z.eqb ob PANIC then true else tie_from st' r obr)
       | None => false
       end
-  | _, _ => true
+  | [], [] => true
+  | _, _ => false
   end.
 
 Definition tie_ok (c : case) : bool := tie_from (repeat None 8) (c_ops c) (c_obs c).
@@ -469,33 +429,44 @@ Fixpoint mono_obs (args : list Q) (obs : list Z) : bool :=
   match args, obs with
   | x :: ((y :: _) as ar), a :: ((b :: _) as br) =>
       (if qle x y then ord_bits a - ord_bits b <=? ULPS else true) && mono_obs ar br
-  | _, _ => true
+  | [], [] | [_], [_] => true
+  | _, _ => false                                  (* lengths differ *)
+  end.
+
+(* the slot's min / max as rationals: None = the spec has no extreme although values are held (false);
+   Some None = an extreme is infinite (legal in a foreign image: the rational oracle cannot follow, true) *)
+Definition bounds_of (s : spec) : option (option (Q * Q)) :=
+  match sp_min s, sp_max s with
+  | Some a, Some b => Some (match Q_of_bits a, Q_of_bits b with Some x, Some y => Some (x, y) | _, _ => None end)
+  | _, _ => None
   end.
 
 Definition oq_of_obits (o : option Z) : option Q := match o with Some b => Q_of_bits b | None => None end.
 
 Definition rank_obs_ok (s : spec) (xs : list Q) (obs : list Z) : bool :=
   if sp_n s =? 0 then forallb (Z.eqb NONE) obs && (length obs =? length xs)%nat else
-  match oq_of_obits (sp_min s), oq_of_obits (sp_max s) with
-  | Some mn, Some mx =>
+  match bounds_of s with
+  | Some (Some (mn, mx)) =>
       all2 (fun x ob => match Q_of_bits ob with
                         | Some r => qle 0 r && qle r 1 &&
                                     (if Qltb x mn then qeq r 0 else true) && (if Qltb mx x then qeq r 1 else true)
                         | None => false end) xs obs
       && mono_obs xs obs
-  | _, _ => true
+  | Some None => true
+  | None => false
   end.
 
 Definition quantile_obs_ok (s : spec) (qs : list Q) (obs : list Z) : bool :=
   if sp_n s =? 0 then forallb (Z.eqb NONE) obs && (length obs =? length qs)%nat else
-  match oq_of_obits (sp_min s), oq_of_obits (sp_max s) with
-  | Some mn, Some mx =>
+  match bounds_of s with
+  | Some (Some (mn, mx)) =>
       all2 (fun q ob => match Q_of_bits ob with
                         | Some x => qle mn x && qle x mx &&
                                     (if qeq q 0 then qeq x mn else true) && (if qeq q 1 then qeq x mx else true)
                         | None => false end) qs obs
       && mono_obs qs obs
-  | _, _ => true
+  | Some None => true
+  | None => false
   end.
 
 Fixpoint qsum (l : list Q) : Q := match l with [] => 0%Q | x :: r => (x + qsum r)%Q end.
@@ -552,11 +523,6 @@ Definition wf_strict (v : view) : bool :=
   | c0 :: _ => strict_means (v_cs v) && qle (v_min v) (c_mean c0) && qle (c_mean (last (v_cs v) c0)) (v_max v)
   end.
 
-Fixpoint sorted_means (cs : list centroid) : bool :=
-  match cs with
-  | a :: ((b :: _) as r) => qle (c_mean a) (c_mean b) && sorted_means r
-  | _ => true
-  end.
 (* well-formed, means possibly shared: the hypotheses of c10_rank_quantile_consistent_any_means *)
 Definition wf_sorted (v : view) : bool :=
   match v_cs v with
@@ -573,7 +539,8 @@ Fixpoint rq_bound_ok (v : view) (qs : list Q) (obs : list Z) : bool :=
       | Some r => Qle_bool (Qabs (r - q)) (resolution v q + RQ_SLACK)%Q && rq_bound_ok v qr obr
       | None => false
       end
-  | _, _ => true
+  | [], [] => true
+  | _, _ => false
   end.
 
 Fixpoint rq_block_bound_ok (v : view) (qs : list Q) (obs : list Z) : bool :=
@@ -583,7 +550,8 @@ Fixpoint rq_block_bound_ok (v : view) (qs : list Q) (obs : list Z) : bool :=
       | Some r => Qle_bool (Qabs (r - q)) (block_resolution v q + RQ_SLACK)%Q && rq_block_bound_ok v qr obr
       | None => false
       end
-  | _, _ => true
+  | [], [] => true
+  | _, _ => false
   end.
 
 Definition same_query (m : option (Z * list Z * list Z)) (slot : Z) (args : list Z) : option (list Z) :=
@@ -613,9 +581,10 @@ Fixpoint rq_pairs_ok (s : spec) (qs : list Q) (obs : list Z) : bool :=
   match qs, obs with
   | [], [] => true
   | q :: qr, xb :: rb :: obr =>
-      match Q_of_bits xb, Q_of_bits rb, oq_of_obits (sp_min s), oq_of_obits (sp_max s) with
-      | Some x, Some r, Some mn, Some mx => qle mn x && qle x mx && qle 0 r && qle r 1 && rq_pairs_ok s qr obr
-      | _, _, _, _ => false
+      match Q_of_bits xb, Q_of_bits rb, bounds_of s with
+      | Some x, Some r, Some (Some (mn, mx)) => qle mn x && qle x mx && qle 0 r && qle r 1 && rq_pairs_ok s qr obr
+      | Some x, Some r, Some None => qle 0 r && qle r 1 && rq_pairs_ok s qr obr
+      | _, _, _ => false
       end
   | _, _ => false
   end.
@@ -627,10 +596,12 @@ Definition prop_step (st : sslots) (mem : pmem) (o : zop) (ob : list Z) : pmem *
   match code with
   | 3 => match sget st slot, all_some (map Q_of_bits (skipn 2 a)) with
          | Some s, Some xs => (mkP (Some (slot, skipn 2 a, ob)) (p_cdf mem) (p_views mem), negb is_panic && rank_obs_ok s xs ob)
-         | _, _ => (mem, true) end
+         | None, _ => (mem, list_eqb Z.eqb ob EMPTY)        (* unset slot: the harness says so *)
+         | Some _, None => (mem, true) end                 (* NaN / infinite argument: not followed *)
   | 4 => match sget st slot, all_some (map Q_of_bits (skipn 2 a)) with
          | Some s, Some qs => if forallb in01 qs then (mem, negb is_panic && quantile_obs_ok s qs ob) else (mem, true)
-         | _, _ => (mem, true) end
+         | None, _ => (mem, list_eqb Z.eqb ob EMPTY)
+         | Some _, None => (mem, true) end
   | 5 => match sget st slot, all_some (map Q_of_bits (skipn 2 a)) with
          | Some s, Some sp =>
              if strictly_increasing sp then
@@ -638,7 +609,8 @@ Definition prop_step (st : sslots) (mem : pmem) (o : zop) (ob : list Z) : pmem *
                 negb is_panic && cdf_obs_ok s sp ob &&
                 match same_query (p_rank mem) slot (skipn 2 a) with Some rk => prefix_eq rk ob | None => true end)
              else (mem, true)
-         | _, _ => (mem, true) end
+         | None, _ => (mem, list_eqb Z.eqb ob EMPTY)
+         | Some _, None => (mem, true) end
   | 6 => match sget st slot, all_some (map Q_of_bits (skipn 2 a)) with
          | Some s, Some sp =>
              if strictly_increasing sp then
@@ -650,7 +622,8 @@ Definition prop_step (st : sslots) (mem : pmem) (o : zop) (ob : list Z) : pmem *
                                   | _, _ => false end
                      | None => true end)
              else (mem, true)
-         | _, _ => (mem, true) end
+         | None, _ => (mem, list_eqb Z.eqb ob EMPTY)
+         | Some _, None => (mem, true) end
   | 7 | 8 | 9 | 10 | 17 =>
          (mem, is_panic || list_eqb Z.eqb ob (snd (spec_step st o)))
   | 18 => match sget st slot, all_some (map Q_of_bits (skipn 1 a)) with
@@ -663,7 +636,8 @@ Definition prop_step (st : sslots) (mem : pmem) (o : zop) (ob : list Z) : pmem *
                          | None => true
                          end)
               else (mem, true)
-          | _, _ => (mem, true) end
+          | None, _ => (mem, list_eqb Z.eqb ob EMPTY)
+          | Some _, None => (mem, true) end
   | 1 => (vset (forget_queries mem) slot None, true)
   | 2 => (vset (forget_queries mem) slot (match ob with [] => vget mem slot | _ => view_of_dump (parse_dump ob) end), true)
   | 11 | 16 => (vset (forget_queries mem) slot (view_of_dump (parse_dump ob)), true)
@@ -680,7 +654,8 @@ Fixpoint prop_from (st : sslots) (mem : pmem) (ops : list zop) (obs : list (list
   | o :: r, ob :: obr =>
       let '(mem', ok) := prop_step st mem o ob in
       ok && (if list_eqb Z.eqb ob PANIC then true else prop_from (fst (spec_step st o)) mem' r obr)
-  | _, _ => true
+  | [], [] => true
+  | _, _ => false
   end.
 
 Definition prop_ok (c : case) : bool := prop_from (repeat None 8) (mkP None None (repeat None 8)) (c_ops c) (c_obs c).
@@ -711,7 +686,8 @@ Definition dump_ok (s : spec) (D : dump) : bool :=
      | c :: _, Some mn, Some mx =>
          let l := last (d_cs D) c in
          Pos.eqb (snd c) 1 && qeq (c_mean c) mn && Pos.eqb (snd l) 1 && qeq (c_mean l) mx
-     | _, _, _ => true
+     | [], _, _ => true
+     | _ :: _, _, _ => false                          (* centroids without min / max *)
      end
    else true).
 
@@ -722,13 +698,20 @@ Definition c15_step (st : sslots) (o : zop) (ob : list Z) : bool :=
   match code with
   | 2 | 11 | 12 | 16 =>
       let st' := fst (spec_step st o) in
+      if list_eqb Z.eqb ob EMPTY then
+        (* the harness found an unset slot: the destination, or the source of a merge *)
+        match sget st slot with
+        | None => true
+        | Some _ => (code =? 2) && (match sget st (nth 1 a 0) with None => true | Some _ => false end)
+        end
+      else
       match sget st' slot with
       | Some s =>
           match ob with
-          | [] => true
+          | [] => code =? 2                            (* only merge(empty source) answers nothing *)
           | _ => match parse_dump ob with Some D => dump_ok s D | None => false end
           end
-      | None => true
+      | None => false
       end
   | _ => true
   end.
@@ -737,7 +720,8 @@ Fixpoint c15_from (st : sslots) (ops : list zop) (obs : list (list Z)) : bool :=
   match ops, obs with
   | o :: r, ob :: obr =>
       c15_step st o ob && (if list_eqb Z.eqb ob PANIC then true else c15_from (fst (spec_step st o)) r obr)
-  | _, _ => true
+  | [], [] => true
+  | _, _ => false
   end.
 
 Definition c15_ok (c : case) : bool := c15_from (repeat None 8) (c_ops c) (c_obs c).
@@ -758,7 +742,7 @@ Definition abs_eqb (a b : td_abs) : bool :=
   (a_k a =? a_k b)%N && Bool.eqb (a_rev a) (a_rev b) && omm_eqb (a_minmax a) (a_minmax b) &&
   list_eqb pair_eqb (a_cs a) (a_cs b) && nlist_eqb (a_buf a) (a_buf b).
 
-Definition image_ok (s : spec) (B : list Z) : bool :=
+Definition image_obs_ok (s : spec) (B : list Z) : bool :=
   let bs := map zN B in
   match tdb_dec false bs, spec_decode Double bs with
   | Ok t, Some a =>
@@ -768,8 +752,11 @@ Definition image_ok (s : spec) (B : list Z) : bool :=
       | None => sp_n s =? 0
       | Some (mn, mx) => list_eqb Z.eqb (obits (sp_min s)) [Nz mn] && list_eqb Z.eqb (obits (sp_max s)) [Nz mx]
       end &&
-      match all_some (map pair_of_bits (a_cs a)) with Some cs => means_sorted cs | None => false end &&
-      (Z.of_nat (length B) =? (if sp_n s =? 0 then 8 else if sp_n s =? 1 then 16 else 32 + 16 * Z.of_nat (length (a_cs a))))
+      match all_some (map pair_of_bits (a_cs a)) with Some cs => sorted_means cs | None => false end &&
+      (* single-value form: one sample that is min and max at once (bit for bit) *)
+      (Z.of_nat (length B) =? (if sp_n s =? 0 then 8
+                               else if (sp_n s =? 1) && list_eqb Z.eqb (obits (sp_min s)) (obits (sp_max s)) then 16
+                               else 32 + 16 * Z.of_nat (length (a_cs a))))
   | _, _ => false
   end.
 
@@ -777,7 +764,7 @@ Definition codec_step (st : sslots) (o : zop) (ob : list Z) : bool :=
   let '(code, a) := o in
   if list_eqb Z.eqb ob PANIC then true else
   match code with
-  | 20 => match sget st (nth 0 a 0) with Some s => image_ok s ob | None => true end
+  | 20 => match sget st (nth 0 a 0) with Some s => image_obs_ok s ob | None => list_eqb Z.eqb ob EMPTY end
   | _ => true
   end.
 
@@ -785,7 +772,8 @@ Fixpoint codec_from (st : sslots) (ops : list zop) (obs : list (list Z)) : bool 
   match ops, obs with
   | o :: r, ob :: obr =>
       codec_step st o ob && (if list_eqb Z.eqb ob PANIC then true else codec_from (fst (spec_step st o)) r obr)
-  | _, _ => true
+  | [], [] => true
+  | _, _ => false
   end.
 Definition codec_ok (c : case) : bool := codec_from (repeat None 8) (c_ops c) (c_obs c).
 
@@ -849,13 +837,141 @@ Fixpoint foreign_from (st : fslots) (ops : list zop) (obs : list (list Z)) : boo
   | o :: r, ob :: obr =>
       let '(st', ok) := foreign_step st o ob in
       ok && (if list_eqb Z.eqb ob PANIC then true else foreign_from st' r obr)
-  | _, _ => true
+  | [], [] => true
+  | _, _ => false
   end.
 Definition foreign_ok (c : case) : bool := foreign_from (repeat None 8) (c_ops c) (c_obs c).
 
 (* [no_panic]: C14 / C17 (oracle 6): no observation is a panic or a runaway-allocation marker *)
 Definition no_panic (c : case) : bool := no_panic_oracle c.
 
+(* =====================================================================================
+   [acc_ok]: the ACCURACY half of C15 as a LABELLED TEST (oracle 7).  No theorem stands behind
+   it: the constants are calibrated on the unchanged crate (tools/props/C15.py quotes the measured
+   worst cases) and the test only detects regressions.  Two checks on the crate's observations:
+   (B) cluster size -- on every centroid dump of an in-process digest (compression k; after a merge
+       the smaller k of the two), every centroid of weight w >= 2 covering the cumulative weights
+       [W, W + w] of n satisfies
+          w - 1 <= ACC_SIZE_C * max (W (n - W), (W + w) (n - W - w)) / n * Z / (2 k),
+       Z = 4 ln (n / 2k) + 24 (the crate's k2 scale function; ln bounded above by 0.7 * log2_up),
+       i.e. ACC_SIZE_C times the weight limit q (1 - q) / normalizer the merge pass enforces;
+   (A) rank against the data -- on every rank query of a never-merged in-process digest whose whole
+       multiset of values is known (n values) and whose centroids are known from the last dump:
+          | rank v - (#{x < v} + #{x = v} / 2) / n | <= 1 / (2n) + ACC_NEIGH_F * S / n + 1e-9,
+       S = the weight of the centroids around v: two below, those with mean = v, two above.
+   Together: the rank error is at most 1 / (2n) plus ACC_NEIGH_F * (4 + ties) cluster weights, each at
+   most 1 + ACC_SIZE_C * n q (1 - q) Z / (2k).  Values and means are compared through ord_bits.
+   ===================================================================================== *)
+Definition ACC_SIZE_C : Z := 2.
+Definition ACC_NEIGH_F : Z := 4.
+
+Record aslot := mkA { as_k : Z; as_vals : option (list Z); as_single : bool; as_cent : option (list (Z * Z)); as_inproc : bool }.
+Definition aslots := list (option aslot).
+Definition aget (st : aslots) (i : Z) : option aslot := nth (Z.to_nat i) st None.
+Definition aput (st : aslots) (i : Z) (x : aslot) : aslots := set_nth (Z.to_nat i) (Some x) st.
+
+(* the centroids of a dump [k; rev; n; min; max; mean_0; w_0; ...] as (ord_bits mean, weight) *)
+Fixpoint cent_pairs (fuel : nat) (l : list Z) : list (Z * Z) :=
+  match fuel, l with
+  | S f, m :: w :: r => (ord_bits m, w) :: cent_pairs f r
+  | _, _ => []
+  end.
+Definition cent_of_dump (ob : list Z) : option (list (Z * Z)) :=
+  match ob with
+  | _ :: _ :: n :: _ :: _ :: r => if (Z.of_nat (length r) =? 2 * n) then Some (cent_pairs (Z.to_nat n) r) else None
+  | _ => None
+  end.
+Definition cent_weight (c : list (Z * Z)) : Z := fold_right (fun p a => snd p + a) 0 c.
+
+(* (B) *)
+Definition z10 (n k : Z) : Z := 28 * Z.log2_up ((n + 2 * k - 1) / (2 * k)) + 240.      (* 10 * Z, from above *)
+Fixpoint sizes_ok (n k W : Z) (c : list (Z * Z)) : bool :=
+  match c with
+  | [] => true
+  | (_, w) :: r =>
+      (if w <? 2 then true
+       else (w - 1) * 2 * k * n * 10 <=? ACC_SIZE_C * Z.max (W * (n - W)) ((W + w) * (n - W - w)) * z10 n k)
+      && sizes_ok n k (W + w) r
+  end.
+Definition cluster_sizes_ok (k : Z) (c : list (Z * Z)) : bool :=
+  let n := cent_weight c in (k <? 10) || sizes_ok n k 0 c.
+
+(* (A) *)
+Definition count_if (f : Z -> bool) (l : list Z) : Z := fold_left (fun a x => if f x then a + 1 else a) l 0.
+Definition neigh_weight (c : list (Z * Z)) (v : Z) : Z :=
+  let cl := count_if (fun m => m <? v) (map fst c) in
+  let cle := count_if (fun m => m <=? v) (map fst c) in
+  let lo := Z.max 0 (cl - 2) in
+  cent_weight (firstn (Z.to_nat (cle + 2 - lo)) (skipn (Z.to_nat lo) c)).
+Definition rank_point_ok (vals : list Z) (c : list (Z * Z)) (vb rb : Z) : bool :=
+  if is_nan_b vb || is_inf_b vb then true else
+  match Q_of_bits rb with
+  | None => false
+  | Some r =>
+      let v := ord_bits vb in
+      let n := Z.of_nat (length vals) in
+      let lt := count_if (fun x => x <? v) vals in
+      let eq := count_if (fun x => x =? v) vals in
+      let cw := cent_weight c in
+      if (n <=? 0) || (cw <=? 0) then false else
+      let mid := Qmake (2 * lt + eq) (Z.to_pos (2 * n)) in
+      Qle_bool (Qabs (r - mid))
+               (Qmake 1 (Z.to_pos (2 * n)) + Qmake (ACC_NEIGH_F * neigh_weight c v) (Z.to_pos cw) + EPS)%Q
+  end.
+
+Definition acc_step (st : aslots) (o : zop) (ob : list Z) : aslots * bool :=
+  let '(code, a) := o in
+  let slot := nth 0 a 0 in
+  if list_eqb Z.eqb ob EMPTY then (st, true) else
+  match code with
+  | 0 => (aput st slot (mkA (nth 1 a 0) (Some []) true None true), true)
+  | 1 => match aget st slot with
+         | Some x => let b := nth 1 a 0 in
+                     if is_nan_b b || is_inf_b b then (st, true)
+                     else (aput st slot (mkA (as_k x) (match as_vals x with Some l => Some (ord_bits b :: l) | None => None end)
+                                              (as_single x) None (as_inproc x)), true)
+         | None => (st, true) end
+  | 2 => match aget st slot, aget st (nth 1 a 0), ob with
+         | Some x, Some y, _ :: _ =>
+             let k := Z.min (as_k x) (as_k y) in
+             let inproc := as_inproc x && as_inproc y in
+             let c := cent_of_dump ob in
+             (aput st slot (mkA k (match as_vals x, as_vals y with Some l, Some m => Some (m ++ l) | _, _ => None end) false c inproc),
+              if inproc then match c with Some cs => cluster_sizes_ok k cs | None => false end else true)
+         | _, _, _ => (st, true) end
+  | 11 | 12 | 16 =>
+         match aget st slot with
+         | Some x => let c := cent_of_dump ob in
+                     (aput st slot (mkA (as_k x) (as_vals x) (as_single x) c (as_inproc x)),
+                      if as_inproc x then match c with Some cs => cluster_sizes_ok (as_k x) cs | None => false end else true)
+         | None => (st, true) end
+  | 15 | 21 => if list_eqb Z.eqb ob [1] then (aput st slot (mkA 0 None false None false), true) else (st, true)
+  | 19 => match aget st slot with
+          | Some x => (aput st (nth 1 a 0) x, true)
+          | None => (st, true) end
+  | 3 => match aget st slot with
+         | Some x =>
+             match as_vals x, as_cent x with
+             | Some ((_ :: _) as vals), Some c =>
+                 if as_single x && as_inproc x
+                 then (st, all2 (rank_point_ok vals c) (skipn 2 a) ob)
+                 else (st, true)
+             | _, _ => (st, true)
+             end
+         | None => (st, true) end
+  | _ => (st, true)
+  end.
+
+Fixpoint acc_from (st : aslots) (ops : list zop) (obs : list (list Z)) : bool :=
+  match ops, obs with
+  | o :: r, ob :: obr =>
+      if list_eqb Z.eqb ob PANIC then true else
+      let '(st', ok) := acc_step st o ob in ok && acc_from st' r obr
+  | [], [] => true
+  | _, _ => false
+  end.
+Definition acc_ok (c : case) : bool := acc_from (repeat None 8) (c_ops c) (c_obs c).
+
 (* oracles by number (tools/families/tdigest.py: ORACLES) *)
 Definition oracles : list (Z * (case -> bool)) :=
-  [(0, prop_ok); (1, tie_ok); (2, c15_ok); (3, codec_ok); (4, twin_ok); (5, foreign_ok); (6, no_panic)].
+  [(0, prop_ok); (1, tie_ok); (2, c15_ok); (3, codec_ok); (4, twin_ok); (5, foreign_ok); (6, no_panic); (7, acc_ok)].
